@@ -176,6 +176,38 @@ LITERAL_FORMS = [
     "let a = [1, 2, 3,];", "let a = {a = 1, b = 2,};", "let a = f(1, 2,);",
 ]
 
+FIELD_NAMES = ["_foo", "_", "__", "a_b", "a-b", "-a", "a-", "9x", "x9", "a.b", "a b", " a", "", "\u00e9", "a\"b", "a\\b", "a\nb", "a\tb", "A", "aB1",
+               "NULL", "true", "false", "let", "import", "include", "as", "select", "func", "module", "env", "self", "mod", "item", "in", "is",
+               "not", "fail", "assert", "out", "convert", "map", "filter", "reduce", "constraint", "TRACE", "null", "True", "a@b", "a=b", "a,b", "a;b",
+               "a//b", "a{b", "a}b", "a(b", "a[b", "a:b", "a::b", "a|b", "a%b", "a$b", "a'b", "\U0001F600"]
+
+
+def field_name_forms():
+    out = []
+    for n in FIELD_NAMES:
+        q = gen.quote(n)
+        out += ["let a = {%s = 1};" % q, "let a = {%s = 1, b = 2}.%s;" % (q, q), "let a = t{%s = 2};" % q,
+                "let a = select (x, 1) => {%s = 1, other = 2};" % q, "let m = module {%s = 1} => {};" % q,
+                "let t = {%s :: 0 = 1};" % q, "let a :: {%s = 0} = {%s = 1};" % (q, q), "let a = %s;" % q]
+    return out
+
+
+def float_forms():
+    out = []
+    for k in range(-30, 31):
+        for m in ("1", "1.5", "9.999999999999999", "1.2345678901234567"):
+            digits = m.replace(".", "")
+            point = 1 + k          # position of the decimal point relative to the first digit
+            if point <= 0:
+                t = "0." + "0" * (-point) + digits
+            elif point >= len(digits):
+                t = digits + "0" * (point - len(digits)) + ".0"
+            else:
+                t = digits[:point] + "." + digits[point:]
+            out.append("let a = %s;" % t)
+    return out
+
+
 COMMENT_FORMS = [
     "// c\nlet a = 1;", "let a = 1; // trailing\nlet b = 2;", "//\nlet a = 1;", "//  two spaces\nlet a = 1;", "//c\nlet a = 1;",
     "// one\n// two\n\n// three\nlet a = 1;\n// end\n", "let a = {\n  // field\n  a = 1,\n  // second\n  b = 2,\n};",
@@ -235,6 +267,8 @@ def task(args):
             for i, t in enumerate(LITERAL_FORMS):
                 judge(probe, t, res, "literal-form", own_line_comments=True, cli=(i % 10 == 0))
                 judge(probe, t + "\n" + t.replace("let a", "let b").replace("let m", "let m2").replace("let f", "let f2").replace("let t", "let t2"), res, "literal-form-x2", own_line_comments=True)
+            for i, t in enumerate(field_name_forms() + float_forms()):
+                judge(probe, t, res, "name-or-float-form", own_line_comments=True, cli=(i % 40 == 0))
             for t in COMMENT_FORMS:
                 own = all(l.strip().startswith("//") or "//" not in l for l in t.split("\n")) and "{\n" not in t and "[\n" not in t
                 judge(probe, t, res, "comment-form", own_line_comments=own)
